@@ -1301,7 +1301,7 @@ func c20Stores(c *core.Ctx, r *core.Report) {
 			r.Check(!bad, "LOADER", construct, c.Pos(call.Pos()), "the structure written comes from the user's file or is new", "the merged (defaults + user) view is written to the user's file: default items become user items")
 		}
 	}
-	r.Floor("LOADER", "writeFolderStructure call sites", nW, 6)
+	r.Floor("LOADER", "writeFolderStructure call sites", nW, 3)
 
 	// (7) REPLACE: writes of stored objects truncate
 	scopeFns := map[string]map[string]bool{
@@ -1630,7 +1630,7 @@ func c20SamePath(c *core.Ctx, r *core.Report) {
 		cnt[key]++
 		r.Check(ok, "SAMEPATH", fmt.Sprintf("saved-queries:%s#%d:file-named-by-getUsqFileName", key, cnt[key]), c.Pos(ci.Pos()), "the tenant's file name comes from getUsqFileName", "this access names the saved-query file differently from the rest of the store: what is written is not what is read after a restart")
 	})
-	r.Floor("SAMEPATH", "saved-query file accesses", nUsq, 4)
+	r.Floor("SAMEPATH", "saved-query file accesses", nUsq, 2)
 
 	// folder structure: through getFolderStructureFilePath; dashboard details: same constant pieces
 	getFolderFile := c.Obj(pkgDash, "getFolderStructureFilePath")
